@@ -36,20 +36,20 @@ add("C11", "differential PBT of the validation gate against reference validity a
 add("C12", "totality fuzzing: generated/mutated/multi-byte strings and exhaustive short strings for 11 parser entry points, in fixed and generated positions, with format round trip",
     "Generated strings (grammar, mutated valid text, multi-byte substitutions with coinciding byte lengths, arbitrary scalar values, ~10 kB inputs) and every string of length <= 3 over a 25-symbol alphabet for each entry point, in release and checked builds: no panic, and parse(format(v)) == v for every accepted value. cargo-fuzz target fuzz_text (thorough) shares the oracle.",
     TRUST, "DESIGN.md §6 C12")
-add("C13", "model-based stateful PBT over MoveChain operation histories (list-of-moves model + replay)",
-    "Generated histories of up to 70 operations (pushes through six routes, refused values, pops, outcome operations, clones) interpreted against a (start, moves, outcome) model with reference positions; full move-list and replay comparison; equality/inequality of chains built by different routes.",
+add("C13", "model-based stateful PBT over MoveChain operation histories (list-of-moves model + replay) + generated equality relations (rebuilt, transposed, prefix chains)",
+    "Generated histories of up to 70 operations (pushes through six routes, refused values, pops, outcome operations, clones) interpreted against a (start, moves, outcome) model with reference positions; full move-list and replay comparison; equality/inequality of chains built by different routes, of transposed move orders reaching one position, and of a chain against every proper prefix of itself on starts with saturated counters (identical final positions).",
     TRUST, "DESIGN.md §6 C13")
-add("C14", "model-based stateful PBT with an occurrence-multiset model of repetitions + exhaustive filter table + sorted key-change search for positions of one game that share a counter",
-    "Shuffle-biased and directed repetition histories, plus one position recurring 70-301 times and unwound, (pops, look-alike positions, clocks near the limits): calc_outcome must be in the model's class (forced > mandatory > claimable > none) with an applicable reason after every operation; set_auto_outcome against an independent filter table for all three filters; Outcome::passes/is_force enumerated over 22 x 3.",
+add("C14", "model-based stateful PBT with an occurrence-multiset model of repetitions and a generated observation schedule + exhaustive filter table + sorted key-change search for positions of one game that share a counter",
+    "Shuffle-biased and directed repetition histories, plus one position recurring 70-301 times and unwound, (pops, look-alike positions, clocks near the limits): calc_outcome must be in the model's class (forced > mandatory > claimable > none) with an applicable reason after every operation, or (half of the cases) only after every 2nd / 4th / 8th operation so that values remembered between looks can go stale; set_auto_outcome against an independent filter table for all three filters; Outcome::passes/is_force enumerated over 22 x 3.",
     TRUST, "DESIGN.md §6 C14")
-add("C15", "exhaustive enumeration of all table entries (leapers, pairs, all relevant-blocker subsets) against ray walking, plus random occupancies",
-    "Through read-only hooks: all leaper/pawn entries, all 4,096 pairs, all 107,648 relevant-blocker subsets per slider x (bare, all irrelevant bits, own square, k random irrelevant patterns), and tens of millions of random 64-bit occupancies; the tables are those of the build under test (build.rs is re-run by cargo when it changes).",
+add("C15", "exhaustive enumeration of all table entries (leapers, pairs, all relevant-blocker subsets) against ray walking, through the hooks and - as generated positions - through move generation and the attack queries (bishop, rook, queen), plus random occupancies",
+    "Through read-only hooks: all leaper/pawn entries, all 4,096 pairs, all 107,648 relevant-blocker subsets per slider x (bare, all irrelevant bits, own square, every single irrelevant bit, k random irrelevant patterns), and tens of millions of random 64-bit occupancies; and every relevant-blocker subset of bishop, rook and queen (6,946,816 for the queen) built as a valid position whose semilegal/legal destinations, cell_attackers and is_cell_attacked must equal ray walking; the tables are those of the build under test (build.rs is re-run by cargo when it changes).",
     TRUST + " Exhaustive over relevant blocker subsets, sampled over irrelevant bits.", "DESIGN.md §6 C15")
 add("C16", "differential PBT of attack/check queries against reference ray-walking geometry",
     "Generated positions x 64 squares x 2 colours: is_cell_attacked, cell_attackers, is_check, checkers equal the reference.",
     TRUST, "DESIGN.md §6 C16")
-add("C17", "model-based PBT of Walker scripts (cursor model) and printing (independently assembled text)",
-    "Generated chains x generated walker scripts, and chains of more than 2^16 plies (next/prev/start/end): every returned (position, move) equals an independent replay as a full snapshot and the chain stays untouched; UCI list rebuilds an equal chain; styled() for 3 number policies x 3 styles x 2 status policies equals an independently assembled string.",
+add("C17", "model-based PBT of Walker scripts (cursor model) and printing (independently assembled text), on chains of legal moves and on chains with null moves (history invariant: positions recorded at push time)",
+    "Generated chains x generated walker scripts, and chains of more than 2^16 plies (next/prev/start/end): every returned (position, move) equals an independent replay as a full snapshot and the chain stays untouched; UCI list rebuilds an equal chain; styled() for 3 number policies x 3 styles x 2 status policies equals an independently assembled string; chains with null moves (push_unchecked) walked against the positions recorded at push time and printed in coordinate style.",
     TRUST, "DESIGN.md §6 C17")
 add("C18", "metamorphic PBT: colour mirror and left-right mirror of generated positions and of unvalidated boards",
     "Generated positions: the mirrored position must validate unchanged and have exactly the mirrored legal / semilegal / capture move sets and the same check / outcome classification (winner swapped); no reference model involved.",
